@@ -135,17 +135,32 @@ end Smdh
 
 namespace SeedDb
 
-/-- `_load_seeds_from_file_object`: entries (title id, seed) in file order; later duplicates overwrite earlier ones -/
-def loadEntries (f : Bytes) : List (Nat × Bytes) :=
+/-- entry `i` of the file (0x20 bytes at 0x10 + 0x20·i), possibly cut short by the end of the file -/
+def rawEntry (f : Bytes) (i : Nat) : Bytes := slice f (0x10 + 0x20 * i) 0x20
+
+/-- `_load_seeds_from_file_object`: entries (title id, seed) in file order; a file that ends before the announced count
+    is an error (`none`) -/
+def loadEntries (f : Bytes) : Option (List (Nat × Bytes)) :=
   let count := readLE (slice f 0 4)
-  (List.range count).map fun i => let e := slice f (0x10 + 0x20 * i) 0x20; (readLE (slice e 0 8), slice e 8 0x10)
+  -- the loop stops at the first short entry, so it never runs more than |f| / 0x20 + 1 times
+  let avail := (f.length - 0x10) / 0x20
+  if count ≤ avail then
+    some ((List.range count).map fun i => (readLE (slice (rawEntry f i) 0 8), slice (rawEntry f i) 8 0x10))
+  else none
 
 /-- dict update in insertion order -/
 def dictSet (d : List (Nat × Bytes)) (k : Nat) (v : Bytes) : List (Nat × Bytes) :=
   if d.any (·.1 == k) then d.map (fun p => if p.1 == k then (k, v) else p) else d ++ [(k, v)]
 
-def load (db : List (Nat × Bytes)) (f : Bytes) : List (Nat × Bytes) :=
-  (loadEntries f).foldl (fun d (k, v) => dictSet d k v) db
+/-- the entries that are stored before the loader gives up on a short file -/
+def loadPrefix (f : Bytes) : List (Nat × Bytes) :=
+  (List.range (min (readLE (slice f 0 4)) ((f.length - 0x10) / 0x20))).map fun i =>
+    (readLE (slice (rawEntry f i) 0 8), slice (rawEntry f i) 8 0x10)
+
+def load (db : List (Nat × Bytes)) (f : Bytes) : Except Err (List (Nat × Bytes)) :=
+  match loadEntries f with
+  | some es => .ok (es.foldl (fun d (k, v) => dictSet d k v) db)
+  | none => .error (.other "InvalidSeedError")
 
 /-- `save_seeddb`; `none` = OverflowError (an id that does not fit 8 bytes, more than 2^32 entries) -/
 def save (db : List (Nat × Bytes)) : Option Bytes :=
